@@ -59,3 +59,27 @@ def insert_empties_everywhere(chunks, empty):
         out.append(c)
         out.append(empty)
     return out
+
+
+BYTES_LIKE = ('bytes', 'bytearray', 'memoryview')
+
+
+def bytes_like(chunks, kind):
+    """The same byte chunks as objects of another bytes-like type: 'bytearray' (what recv_into / readinto style producers
+    deliver - mutable, so a consumer that keeps one and extends it in place corrupts its producer's data) or 'memoryview'
+    (zero-copy slices of ONE buffer, the usual way to re-chunk without copying; a memoryview has no '+', no .find, no .decode)."""
+    if kind == 'bytearray':
+        return [bytearray(c) for c in chunks]
+    if kind == 'memoryview':
+        whole = memoryview(b''.join(bytes(c) for c in chunks))
+        out, pos = [], 0
+        for c in chunks:
+            out.append(whole[pos:pos + len(c)])
+            pos += len(c)
+        return out
+    return list(chunks)
+
+
+def frozen(chunks):
+    """an immutable copy of a list of bytes-like chunks, to compare with after the run: the library must not change its input"""
+    return [bytes(c) for c in chunks]
